@@ -1,12 +1,12 @@
 SPECIFICATION Spec
 CONSTANTS
   Deviations <- AllDevs
-  MaxNodes = 4
+  MaxNodes = 2
   Worlds <- QuickWorlds
-  Rich = TRUE
+  Rich = FALSE
   NumIter = 2
   EarlyStop = TRUE
-  Sim = TRUE
+  Sim = FALSE
   Fine = TRUE
   Mutant = "none"
 INVARIANT PropertyHolds
